@@ -539,6 +539,10 @@ func genValid(o *hx.Out, rng *hx.Rng, n int) {
 				o.Count("case:on-disk")
 			}
 			if crng.Chance(30) {
+				r.do(fmt.Sprintf("B:%d", crng.U64()>>1))
+				o.Count("case:busy-process")
+			}
+			if crng.Chance(30) {
 				r.do(fmt.Sprintf("T:%d:%d", 1+crng.Intn(5), crng.Intn(2)))
 			}
 			if crng.Chance(8) {
